@@ -2,13 +2,17 @@
 Model of `molgri.molecules.rate_merger` (`merge_sublists`, `merge_matrix_cells`, `delete_rate_cells`,
 `sqra_normalize`) and of `SQRA.cut_and_merge` (C13).  Import-free, executable.
 
-Matrices are dense row-major lists of integer rows (the sparse and the dense code path have one
-semantics; the correspondence check compares both).  An index list is a list of groups of original cells.
+Matrices are dense row-major lists of rows over an arbitrary scalar type `α` (the sparse and the dense code path
+have one semantics; the correspondence check compares both).  The matrix part of the code only adds, subtracts and
+uses `0`, so the model asks for the core classes `Add`, `Sub`, `Zero` only: the driver and the `decide` examples
+instantiate `α := Int`, the theorems hold for every additive commutative group (`Molgri/Props/C13.lean`), in
+particular for the field `K` in which C01 / the pipeline produce a rate matrix (`Molgri/Bridge/MergeRate.lean`).
+An index list is a list of groups of original cells.
 The model follows the repaired code (fix commits F3, F6, F8, F12 in /repo).
 -/
 namespace Molgri.Merge
 
-abbrev Mat := List (List Int)
+abbrev Mat (α : Type) := List (List α)
 abbrev Groups := List (List Nat)
 
 /-! ### small list utilities -/
@@ -29,9 +33,10 @@ def dedupAsc : List Nat → List Nat
 /-- `np.unique` / `sorted(set(..))` -/
 def uniqueAsc (l : List Nat) : List Nat := dedupAsc (sortAsc l)
 
-def entry (A : Mat) (r s : Nat) : Int := (A.getD r []).getD s 0
+def entry {α : Type} [Zero α] (A : Mat α) (r s : Nat) : α := (A.getD r []).getD s 0
 
-def intSum (l : List Int) : Int := l.foldl (· + ·) 0
+/-- sum in storage order, starting from `0` (the name is historical: the scalars were integers first) -/
+def intSum {α : Type} [Add α] [Zero α] (l : List α) : α := l.foldl (· + ·) 0
 
 /-! ### `merge_sublists`: connected components of the join lists -/
 
@@ -69,7 +74,7 @@ def flatMerged (G : Groups) : List Nat := G.flatMap List.tail
 def toKeep (n : Nat) (gone : List Nat) : List Nat := (List.range n).filter (fun r => !gone.contains r)
 
 /-- `Pᵀ (A P)` for the 0/1 merge matrix `P` of the row groups `G` -/
-def mergeMat (A : Mat) (G : Groups) : Mat :=
+def mergeMat {α : Type} [Add α] [Zero α] (A : Mat α) (G : Groups) : Mat α :=
   let keep := toKeep A.length (flatMerged G)
   keep.map fun a => keep.map fun b =>
     intSum ((grpOf G a).map fun r => intSum ((grpOf G b).map fun s => entry A r s))
@@ -87,7 +92,8 @@ def Err.name : Err → String
   | .runtimeError => "other:RuntimeError" | .indexError => "IndexError"
 
 /-- `merge_matrix_cells(my_matrix, all_to_join, index_list)` -/
-def mergeCells (A : Mat) (J : Groups) (idx : Option Groups) : Except Err (Mat × Groups) :=
+def mergeCells {α : Type} [Add α] [Zero α] (A : Mat α) (J : Groups) (idx : Option Groups) :
+    Except Err (Mat α × Groups) :=
   match idx with
   | none =>
     -- merge_sublists on the raw lists: an empty sub-list makes `to_edges` fail (StopIteration inside a generator)
@@ -106,16 +112,17 @@ def mergeCells (A : Mat) (J : Groups) (idx : Option Groups) : Except Err (Mat ×
 /-! ### deletion -/
 
 /-- `sqra_normalize`: add minus the row sum to the diagonal -/
-def normalize (A : Mat) : Mat :=
+def normalize {α : Type} [Add α] [Sub α] [Zero α] (A : Mat α) : Mat α :=
   (List.range A.length).map fun i =>
     let row := A.getD i []
     (List.range row.length).map fun j => if i = j then row.getD j 0 - intSum row else row.getD j 0
 
-def subMat (A : Mat) (keep : List Nat) : Mat :=
+def subMat {α : Type} [Zero α] (A : Mat α) (keep : List Nat) : Mat α :=
   keep.map fun a => keep.map fun b => entry A a b
 
 /-- `delete_rate_cells(my_matrix, to_remove, index_list)` -/
-def deleteCells (A : Mat) (R : List Nat) (idx : Option Groups) : Mat × Groups :=
+def deleteCells {α : Type} [Add α] [Sub α] [Zero α] (A : Mat α) (R : List Nat) (idx : Option Groups) :
+    Mat α × Groups :=
   let il := idx.getD (singletons A.length)
   let rows := match idx with
     | none => R
@@ -130,12 +137,15 @@ inductive Op
   | delete (R : List Nat)
   deriving Repr
 
-structure State where
-  A : Mat
+structure State (α : Type) where
+  A : Mat α
   idx : Option Groups
   deriving Repr
 
-def step (s : State) : Op → Except Err State
+section ops
+variable {α : Type} [Add α] [Sub α] [Zero α]
+
+def step (s : State α) : Op → Except Err (State α)
   | .merge J => do
     let (A', il') ← mergeCells s.A J s.idx
     pure ⟨A', some il'⟩
@@ -143,7 +153,7 @@ def step (s : State) : Op → Except Err State
     let (A', il') := deleteCells s.A R s.idx
     pure ⟨A', some il'⟩
 
-def run (s : State) : List Op → Except Err State
+def run (s : State α) : List Op → Except Err (State α)
   | [] => pure s
   | op :: ops => do
     let s' ← step s op
@@ -151,7 +161,8 @@ def run (s : State) : List Op → Except Err State
 
 /-! ### `SQRA.cut_and_merge`; the two selector functions are parameters (their results are inputs) -/
 
-def cutAndMerge (Q : Mat) (toJoin : Option Groups) (tooHigh : Option (List Nat)) : Except Err (Mat × Option Groups) := do
+def cutAndMerge (Q : Mat α) (toJoin : Option Groups) (tooHigh : Option (List Nat)) :
+    Except Err (Mat α × Option Groups) := do
   let (Q1, il1) ← match toJoin with
     | some J => do
       let (A, il) ← mergeCells Q J none
@@ -162,5 +173,7 @@ def cutAndMerge (Q : Mat) (toJoin : Option Groups) (tooHigh : Option (List Nat))
     let (A, il) := deleteCells Q1 R il1
     pure (A, some il)
   | none => pure (Q1, il1)
+
+end ops
 
 end Molgri.Merge
